@@ -360,7 +360,7 @@ func C16(c *core.Ctx) {
 func checkReaders(c *core.Ctx, tabs *Tables, prefix string, full bool, only ...string) {
 	nEval := 0
 	for _, rd := range fastaReaders {
-		if len(only) > 0 && only[0] != rd.name {
+		if len(only) > 0 && !containsStr(only, rd.name) {
 			continue
 		}
 		pos := funcPos(c, rd.pkg, rd.name)
@@ -471,6 +471,9 @@ func checkReaders(c *core.Ctx, tabs *Tables, prefix string, full bool, only ...s
 			{"only a blank line", []string{""}},
 			{"header with no identifier", []string{">", "ACGT"}},
 			{"header of spaces", []string{">a", "ACGT", ">  ", "ACGT"}},
+			{"first header of spaces", []string{">  ", "ACGT", ">b", "ACGT"}},
+			{"later header with no identifier", []string{">a", "ACGT", ">", "ACGT"}},
+			{"header of a tab", []string{">a", "ACGT", ">\t", "ACGT"}},
 		} {
 			nEval++
 			res := runReader(c, tabs, rd.pkg, rd.name, tc.lines, false, "")
@@ -535,6 +538,10 @@ func checkReaders(c *core.Ctx, tabs *Tables, prefix string, full bool, only ...s
 			{"blank line before the reference", []string{">a", "ACGT", "", ">ref", "ACGT"}},
 			{"empty input", []string{}},
 			{"header with no identifier", []string{">", "ACGT", ">ref", "ACGT"}},
+			{"later header with no identifier", []string{">a", "ACGT", ">", "ACGT", ">ref", "ACGT"}},
+			{"first header of spaces", []string{">  ", "ACGT", ">ref", "ACGT"}},
+			{"later header of spaces", []string{">a", "ACGT", ">  ", "ACGT", ">ref", "ACGT"}},
+			{"later header of a tab", []string{">a", "ACGT", ">\t", "ACGT", ">ref", "ACGT"}},
 			{"no leading header", []string{"ACGT", ">ref", "ACGT"}},
 			{"invalid symbol before the reference", []string{">a", "AC!T", ">ref", "ACGT"}},
 			{"unequal lengths before the reference", []string{">a", "ACGT", ">b", "ACG", ">ref", "ACGT"}},
@@ -559,12 +566,16 @@ func checkReaders(c *core.Ctx, tabs *Tables, prefix string, full bool, only ...s
 }
 
 // c16Structural: no custom split function; Scanner.Err is consulted by every reader.
-func c16Structural(c *core.Ctx) {
+// pkgs restricts the rule to the readers of the named packages (those the property's command uses); none means all five.
+func c16Structural(c *core.Ctx, pkgs ...string) {
 	p := facts(c)
 	nScan := 0
 	lineLimits := map[string][]string{}
 	for _, f := range p.funcs {
 		if f.Parent() != nil || isDeprecatedIndels(f) {
+			continue
+		}
+		if len(pkgs) > 0 && (f.Pkg == nil || !containsStr(pkgs, c.RelOf(f.Pkg.Pkg))) {
 			continue
 		}
 		usesScanner, split, errChecked := false, false, false
@@ -643,4 +654,13 @@ func c16Structural(c *core.Ctx) {
 	sort.Strings(lims)
 	c.Ob("D/readers-agree-on-the-longest-line-accepted", len(lineLimits) == 1, token.NoPos, "the readers accept different maximum line lengths, so one alignment is read or rejected depending on its wrapping and on the reader: %s", strings.Join(lims, "; "))
 	c.Floor("D/scanner-readers", nScan, 4)
+}
+
+func containsStr(xs []string, x string) bool {
+	for _, y := range xs {
+		if y == x {
+			return true
+		}
+	}
+	return false
 }
